@@ -81,6 +81,9 @@ pub fn acceptor(v6: bool, id: usize, hits: Arc<Mutex<Vec<usize>>>) -> SocketAddr
 #[derive(Clone, Debug)]
 struct Cfg {
     addrs: Vec<(bool, char)>, // (is_v6, behaviour) in resolver order
+    /// per address: an IPv6 address of the IPv4-mapped form `::ffff:a.b.c.d` (an IPv6 address like any other for
+    /// the order of the race; it reaches the IPv4 listener)
+    mapped: Vec<bool>,
     deadline_ms: Option<u64>, // overall timeout of the request
     ct_ms: u64,               // connect timeout of the request (per attempt)
 }
@@ -96,15 +99,21 @@ fn run_cfg(cfg: &Cfg, host: &str) -> Option<Obs> {
     let mut holes = vec![];
     let mut addrs: Vec<SocketAddr> = vec![];
     for (i, (v6, b)) in cfg.addrs.iter().enumerate() {
-        addrs.push(match b {
-            'a' => acceptor(*v6, i, hits.clone()),
-            'r' => closed_port(*v6),
+        let mapped = cfg.mapped.get(i).copied().unwrap_or(false);
+        let v6 = *v6 && !mapped;
+        let a = match b {
+            'a' => acceptor(v6, i, hits.clone()),
+            'r' => closed_port(v6),
             _ => {
-                let h = blackhole(*v6)?;
+                let h = blackhole(v6)?;
                 let a = h.addr;
                 holes.push(h);
                 a
             }
+        };
+        addrs.push(match (mapped, a) {
+            (true, SocketAddr::V4(v4)) => SocketAddr::new(std::net::IpAddr::V6(v4.ip().to_ipv6_mapped()), v4.port()),
+            _ => a,
         });
     }
     attohttpc::verif_hooks::set_resolver_override(host, addrs.clone());
@@ -204,30 +213,45 @@ pub fn generate(seed: u64, tier: &str, sink: &mut Sink) {
     if thorough {
         for a in &all {
             for d in deadlines {
-                cfgs.push(Cfg { addrs: a.clone(), deadline_ms: d, ct_ms: CONNECT_TIMEOUT_MS });
+                cfgs.push(Cfg { addrs: a.clone(), mapped: vec![], deadline_ms: d, ct_ms: CONNECT_TIMEOUT_MS });
             }
             // connect timeouts shorter than the race: every attempt has its own full connect timeout
             if a.len() >= 3 {
                 for ct in [300u64, 500] {
-                    cfgs.push(Cfg { addrs: a.clone(), deadline_ms: None, ct_ms: ct });
+                    cfgs.push(Cfg { addrs: a.clone(), mapped: vec![], deadline_ms: None, ct_ms: ct });
                 }
             }
         }
     } else {
         for _ in 0..48 {
-            cfgs.push(Cfg { addrs: rng.pick(&all).clone(), deadline_ms: *rng.pick(&deadlines), ct_ms: CONNECT_TIMEOUT_MS });
+            cfgs.push(Cfg { addrs: rng.pick(&all).clone(), mapped: vec![], deadline_ms: *rng.pick(&deadlines), ct_ms: CONNECT_TIMEOUT_MS });
         }
         // the cases the statement names
-        cfgs.push(Cfg { addrs: vec![(true, 'b'), (false, 'a')], deadline_ms: None, ct_ms: CONNECT_TIMEOUT_MS });
-        cfgs.push(Cfg { addrs: vec![(false, 'a'), (true, 'b')], deadline_ms: None, ct_ms: CONNECT_TIMEOUT_MS });
-        cfgs.push(Cfg { addrs: vec![(true, 'r'), (false, 'r')], deadline_ms: None, ct_ms: CONNECT_TIMEOUT_MS });
-        cfgs.push(Cfg { addrs: vec![(true, 'b'), (false, 'b')], deadline_ms: None, ct_ms: CONNECT_TIMEOUT_MS });
-        cfgs.push(Cfg { addrs: vec![(true, 'b'), (true, 'b'), (false, 'a')], deadline_ms: None, ct_ms: CONNECT_TIMEOUT_MS });
+        cfgs.push(Cfg { mapped: vec![], addrs: vec![(true, 'b'), (false, 'a')], deadline_ms: None, ct_ms: CONNECT_TIMEOUT_MS });
+        cfgs.push(Cfg { mapped: vec![], addrs: vec![(false, 'a'), (true, 'b')], deadline_ms: None, ct_ms: CONNECT_TIMEOUT_MS });
+        cfgs.push(Cfg { mapped: vec![], addrs: vec![(true, 'r'), (false, 'r')], deadline_ms: None, ct_ms: CONNECT_TIMEOUT_MS });
+        cfgs.push(Cfg { mapped: vec![], addrs: vec![(true, 'b'), (false, 'b')], deadline_ms: None, ct_ms: CONNECT_TIMEOUT_MS });
+        cfgs.push(Cfg { mapped: vec![], addrs: vec![(true, 'b'), (true, 'b'), (false, 'a')], deadline_ms: None, ct_ms: CONNECT_TIMEOUT_MS });
         // a connect timeout shorter than the race: a late attempt still has its full connect timeout
-        cfgs.push(Cfg { addrs: vec![(true, 'b'), (false, 'b'), (true, 'a')], deadline_ms: None, ct_ms: 300 });
-        cfgs.push(Cfg { addrs: vec![(true, 'b'), (false, 'b'), (false, 'a')], deadline_ms: None, ct_ms: 300 });
-        cfgs.push(Cfg { addrs: vec![(true, 'b'), (false, 'b'), (true, 'b'), (false, 'a')], deadline_ms: None, ct_ms: 500 });
-        cfgs.push(Cfg { addrs: vec![(true, 'r'), (false, 'b'), (true, 'b'), (false, 'a')], deadline_ms: Some(5000), ct_ms: 300 });
+        cfgs.push(Cfg { mapped: vec![], addrs: vec![(true, 'b'), (false, 'b'), (true, 'a')], deadline_ms: None, ct_ms: 300 });
+        cfgs.push(Cfg { mapped: vec![], addrs: vec![(true, 'b'), (false, 'b'), (false, 'a')], deadline_ms: None, ct_ms: 300 });
+        cfgs.push(Cfg { mapped: vec![], addrs: vec![(true, 'b'), (false, 'b'), (true, 'b'), (false, 'a')], deadline_ms: None, ct_ms: 500 });
+        cfgs.push(Cfg { mapped: vec![], addrs: vec![(true, 'r'), (false, 'b'), (true, 'b'), (false, 'a')], deadline_ms: Some(5000), ct_ms: 300 });
+    }
+    // IPv4-mapped IPv6 addresses in the resolver's answer: IPv6 addresses for the order of the race
+    {
+        let m = |addrs: Vec<(bool, char)>, mapped: Vec<bool>| Cfg { addrs, mapped, deadline_ms: None, ct_ms: CONNECT_TIMEOUT_MS };
+        cfgs.push(m(vec![(false, 'a'), (true, 'a')], vec![false, true]));
+        cfgs.push(m(vec![(true, 'a'), (true, 'a')], vec![true, false]));
+        cfgs.push(m(vec![(false, 'a'), (true, 'r'), (true, 'a')], vec![false, true, false]));
+        cfgs.push(m(vec![(false, 'r'), (true, 'a'), (true, 'a')], vec![false, true, false]));
+        cfgs.push(m(vec![(true, 'b'), (false, 'a')], vec![true, false]));
+        if thorough {
+            for a in all.iter().filter(|a| a.len() >= 2 && a.iter().any(|x| x.0)) {
+                let mapped: Vec<bool> = a.iter().enumerate().map(|(i, x)| x.0 && i % 2 == 0).collect();
+                cfgs.push(m(a.clone(), mapped));
+            }
+        }
     }
     // run in parallel worker threads (the resolver override is thread-local)
     let nworkers = 12;
@@ -334,6 +358,7 @@ pub fn generate(seed: u64, tier: &str, sink: &mut Sink) {
                 format!("deadline={}", cfg.deadline_ms.map(|d| d.to_string()).unwrap_or("none".into())),
                 format!("accepting={}", any_accept),
                 format!("blackholes={}", cfg.addrs.iter().filter(|a| a.1 == 'b').count()),
+                format!("v4-mapped={}", cfg.mapped.iter().any(|m| *m)),
             ],
             op,
             impl_line: format!("{} t~={}", obs.line, obs.elapsed_ms),
